@@ -74,8 +74,14 @@ def error_info(ex):
 
 
 def serial_imap(f, items, **kw):
+    """Ordered serial stand-in for p_tqdm.p_imap with the pool's state semantics: the pool pickles the mapped callable
+    (a lambda closing over the coordinator) for every task, so each task starts from a pristine copy of the coordinator /
+    aligner / engine objects, while module-level state of a worker process survives from task to task. Mapping the
+    shared callable directly would invert both (object state would leak, e.g. AlignerEngine.iteration)."""
+    import dill
+    blob = dill.dumps(f)
     for it in items:
-        yield f(it)
+        yield dill.loads(blob)(it)
 
 
 @contextlib.contextmanager
